@@ -24,7 +24,13 @@ for i, (c, o) in enumerate(zip(cases, outs)):
     if d:
       nd += 1
       if nd <= int(os.environ.get('SHOW', 5)):
-        a, b = o['model'], mo[i]
+        import copy as _copy
+        a, b = o['model'], _copy.deepcopy(mo[i])
+        if c.get('kind', 'list') != 'list':
+          if isinstance(b.get('construct'), list):
+            b['construct'] = sorted([[k, c03.canon(v)] for k, v in b['construct']])
+          for st in b.get('steps', []):
+            st['items'] = sorted([[k, c03.canon(v)] for k, v in st['items']])
         print('DISAGREE kind=%s spec=%s partial=%s' % (c.get('kind'), json.dumps(o['state'])[:600], c.get('partial')))
         print('   items', json.dumps(c['items'])[:300])
         if a['construct'] != b['construct']:
